@@ -16,6 +16,7 @@ def run(ck, fb):
     r13f(ck, fb)
     r13g(ck, fb)
     r13h(ck, fb)
+    r13i(ck, fb)
 
 
 def _run0(ck, fb):
@@ -167,7 +168,7 @@ def _run0(ck, fb):
     if inv:
         adds = [s for s in inv.calls(r'TimeoutSet::<T>::add$')]
         hw = [(bb, st) for (o, f, bb, st) in inv.field_writes() if f == 'healthy' and o.endswith('Instance')]
-        ck.require(len(adds) == 1 and len(hw) == 1, 'R13c', 'healthy_invalid:marks-and-arms', inv.where(), 'update_instance_healthy_invalid does not (set healthy=false, arm removal)')
+        ck.require(len(adds) >= 1 and len(hw) >= 1, 'R13c', 'healthy_invalid:marks-and-arms', inv.where(), 'update_instance_healthy_invalid does not (set healthy=false, arm removal)')
         if hw:
             from rn.facts import op_const
             c = op_const(hw[0][1]['rv'].get('op', {})) if hw[0][1]['rv']['k'] == 'use' else None
@@ -407,3 +408,21 @@ def r13h(ck, fb):
             ck.require(src not in free, 'R13h', 'time_check:budget-exit-after-queue', b.where(src),
                        'the loop over services can be left after a service was expired but before its lists were pushed to change_list: the service '
                        'that crosses the round budget is expired here and nobody is told - non-owner nodes keep its instances healthy for ever')
+
+
+def r13i(ck, fb):
+    ck.rule('R13i', 'an unhealthy instance is always on the removal clock: Service::update_instance_healthy_invalid consumes the health time-out '
+                    'entry of the instance; on every path on which the instance stays in the map it has been queued in unhealthy_timeout_set - also '
+                    'when it was unhealthy already (registered with healthy=false, or taken over from a dead owner that had marked it). Nothing '
+                    'else ever queues it for removal')
+    b = ck.body(SV + 'update_instance_healthy_invalid', 'R13i')
+    if not b:
+        return
+    adds = util.mut_calls_on_field(b, 'unhealthy_timeout_set', r'::add$')
+    ins = util.mut_calls_on_field(b, 'instances', r'HashMap::<K, V, S, A>::insert$')
+    ck.floor('R13i', 'instances.insert in update_instance_healthy_invalid', len(ins), 1)
+    for s0 in ins:
+        ok = any(cfg.dominates_blocks(b, {a.bb}, s0.bb) or cfg.must_pass_before_return(b, s0.bb, {a.bb}) for a in adds)
+        ck.require(ok, 'R13i', 'healthy_invalid:stays-implies-queued', s0.where(),
+                   'an instance is put back into the map without having been queued in unhealthy_timeout_set: the already-unhealthy instance whose '
+                   'health entry just fired is never removed (e.g. the unhealthy instance of a dead owner after take-over)')
